@@ -1,7 +1,456 @@
-//! C44 — not built yet.
-use lv_common::Ctx;
+//! C44 — gRPC calls fail over across endpoints.
+//!
+//! The real `GrpcClient` (public builder, `.transport(fake)` once per endpoint) runs against 1..5 fake endpoints.
+//! Every (call, endpoint) pair has a generated outcome (ok / network error kinds / non-network error kinds) and a
+//! generated delay; calls are tagged with an `x-call` metadata entry so the fake node knows which script row applies
+//! and records (call, endpoint, path) in a trace. The oracle judges every call from its own trace, its scripted
+//! outcomes and the value / error the client returned.
+use std::sync::{Arc, Mutex};
 
-pub fn run(_ctx: &mut Ctx) {
-    eprintln!("C44: check not built yet");
-    std::process::exit(2);
+use celestia_grpc::grpc::TxPriority;
+use celestia_grpc::{Error, GrpcClient};
+use celestia_proto::celestia::blob::v1 as pblob;
+use celestia_proto::celestia::core::v1::gas_estimation as pgas;
+use celestia_proto::cosmos::auth::v1beta1 as pauth;
+use celestia_proto::cosmos::base::node::v1beta1 as pnode;
+use lv_common::prelude::*;
+use prost::Message;
+
+use crate::fake::{FakeEndpoint, Handler, Incoming, Reply, yields};
+
+pub const MAX_EP: usize = 5;
+
+#[derive(Clone, Debug, Serialize, Deserialize, PartialEq)]
+pub enum Outcome {
+    Ok,
+    /// gRPC status code (tonic numbering), delivered trailers-only or as trailers after an empty body
+    Status { code: u8, trailers_only: bool },
+    /// bare HTTP status without grpc-status
+    Http(u16),
+    /// the transport future resolves to an error
+    Transport,
+}
+
+#[derive(Clone, Copy, Debug, PartialEq, Eq)]
+pub enum Class {
+    Ok,
+    Network,
+    NonNetwork,
+}
+
+const NET_CODES: [u8; 4] = [14, 2, 4, 10]; // Unavailable, Unknown, DeadlineExceeded, Aborted
+const NON_NET_CODES: [u8; 12] = [3, 5, 13, 1, 6, 7, 8, 9, 11, 12, 15, 16];
+const NET_HTTP: [u16; 5] = [503, 502, 504, 429, 500]; // tonic: 503/502/504/429 -> Unavailable, other -> Unknown
+const NON_NET_HTTP: [u16; 4] = [401, 403, 404, 400]; // Unauthenticated, PermissionDenied, Unimplemented, Internal
+
+/// Reference classification, independent of `Error::is_network_error`.
+pub fn classify(o: &Outcome) -> Class {
+    match o {
+        Outcome::Ok => Class::Ok,
+        Outcome::Status { code, .. } => {
+            if NET_CODES.contains(code) {
+                Class::Network
+            } else {
+                Class::NonNetwork
+            }
+        }
+        Outcome::Http(h) => {
+            if NET_HTTP.contains(h) {
+                Class::Network
+            } else {
+                Class::NonNetwork
+            }
+        }
+        Outcome::Transport => Class::Network,
+    }
+}
+
+fn kind_label(o: &Outcome) -> String {
+    match o {
+        Outcome::Ok => "ep-ok".into(),
+        Outcome::Status { code, trailers_only } => format!("ep-status-{code}{}", if *trailers_only { "-trailers-only" } else { "" }),
+        Outcome::Http(h) => format!("ep-http-{h}"),
+        Outcome::Transport => "ep-transport-error".into(),
+    }
+}
+
+#[derive(Clone, Debug, Serialize, Deserialize)]
+pub struct CallSpec {
+    pub method: u8,
+    pub caller: u16,
+    pub outcomes: Vec<Outcome>,
+    pub delays: Vec<u8>,
+}
+
+#[derive(Clone, Debug, Serialize, Deserialize)]
+pub struct Case {
+    pub n: usize,
+    /// 1 = sequential; 2..4 concurrent callers
+    pub callers: usize,
+    pub multi_thread: bool,
+    pub calls: Vec<CallSpec>,
+}
+
+fn outcome_strategy() -> impl Strategy<Value = Outcome> {
+    prop_oneof![
+        30 => Just(Outcome::Ok),
+        30 => (0usize..NET_CODES.len(), any::<bool>()).prop_map(|(i, t)| Outcome::Status { code: NET_CODES[i], trailers_only: t }),
+        10 => Just(Outcome::Transport),
+        6 => (0usize..NET_HTTP.len()).prop_map(|i| Outcome::Http(NET_HTTP[i])),
+        16 => (0usize..NON_NET_CODES.len(), any::<bool>()).prop_map(|(i, t)| Outcome::Status { code: NON_NET_CODES[i], trailers_only: t }),
+        4 => (0usize..NON_NET_HTTP.len()).prop_map(|i| Outcome::Http(NON_NET_HTTP[i])),
+    ]
+}
+
+fn call_strategy() -> impl Strategy<Value = CallSpec> {
+    (
+        0u8..4,
+        any::<u16>(),
+        prop::collection::vec(outcome_strategy(), MAX_EP),
+        prop::collection::vec(0u8..4, MAX_EP),
+    )
+        .prop_map(|(method, caller, outcomes, delays)| CallSpec { method, caller, outcomes, delays })
+}
+
+fn case_strategy(max_calls: usize) -> impl Strategy<Value = Case> {
+    (
+        1usize..=MAX_EP,
+        prop_oneof![3 => Just(1usize), 1 => Just(2usize), 1 => Just(3usize), 1 => Just(4usize)],
+        any::<bool>(),
+        prop::collection::vec(call_strategy(), 1..=max_calls),
+    )
+        .prop_map(|(n, callers, multi_thread, calls)| Case { n, callers, multi_thread, calls })
+}
+
+const PATHS: [&str; 4] = [
+    "/cosmos.auth.v1beta1.Query/Params",
+    "/celestia.blob.v1.Query/Params",
+    "/celestia.core.v1.gas_estimation.GasEstimator/EstimateGasPrice",
+    "/cosmos.base.node.v1beta1.Service/Config",
+];
+
+fn ident(call: usize, ep: usize) -> u64 {
+    (call as u64) * 8 + ep as u64 + 1
+}
+
+fn ok_message(method: u8, id: u64) -> Vec<u8> {
+    match method {
+        0 => pauth::QueryParamsResponse {
+            params: Some(pauth::Params { max_memo_characters: id, tx_sig_limit: 7, tx_size_cost_per_byte: 10, sig_verify_cost_ed25519: 590, sig_verify_cost_secp256k1: 1000 }),
+        }
+        .encode_to_vec(),
+        1 => pblob::QueryParamsResponse { params: Some(pblob::Params { gas_per_blob_byte: 8, gov_max_square_size: id }) }.encode_to_vec(),
+        2 => pgas::EstimateGasPriceResponse { estimated_gas_price: id as f64 }.encode_to_vec(),
+        _ => pnode::ConfigResponse {
+            minimum_gas_price: "0.002utia".into(),
+            pruning_keep_recent: "100".into(),
+            pruning_interval: "10".into(),
+            halt_height: id,
+        }
+        .encode_to_vec(),
+    }
+}
+
+#[derive(Debug, Clone)]
+struct Ev {
+    call: usize,
+    endpoint: usize,
+    path: String,
+    request_ok: bool,
+}
+
+#[derive(Debug)]
+enum CallResult {
+    Ok(u64),
+    Err { network: bool, tonic: Option<(i32, String)>, #[allow(dead_code)] text: String },
+}
+
+fn err_message(call: usize, ep: usize) -> String {
+    format!("scripted failure, call {call} endpoint {ep}")
+}
+
+async fn do_call(client: &GrpcClient, method: u8, call: usize) -> CallResult {
+    let tag = call.to_string();
+    let res: Result<u64, Error> = match method {
+        0 => match client.get_auth_params().metadata("x-call", &tag) {
+            Ok(c) => c.await.map(|p| p.max_memo_characters),
+            Err(e) => Err(e.into()),
+        },
+        1 => match client.get_blob_params().metadata("x-call", &tag) {
+            Ok(c) => c.await.map(|p| p.gov_max_square_size),
+            Err(e) => Err(e.into()),
+        },
+        2 => match client.estimate_gas_price(TxPriority::Medium).metadata("x-call", &tag) {
+            Ok(c) => c.await.map(|p| p as u64),
+            Err(e) => Err(e.into()),
+        },
+        _ => match client.get_node_config().metadata("x-call", &tag) {
+            Ok(c) => c.await.map(|p| p.halt_height),
+            Err(e) => Err(e.into()),
+        },
+    };
+    match res {
+        Ok(v) => CallResult::Ok(v),
+        Err(e) => {
+            let network = e.is_network_error();
+            let text = e.to_string();
+            let tonic = match &e {
+                Error::TonicError(st) => Some((st.code() as i32, st.message().to_string())),
+                _ => None,
+            };
+            CallResult::Err { network, tonic, text }
+        }
+    }
+}
+
+fn run_scenario(case: &Case) -> (Vec<Ev>, Vec<Option<CallResult>>) {
+    let n = case.n;
+    let probe = case.calls.len();
+    // script rows: the generated calls plus one final probe row where every endpoint is Unavailable
+    let mut rows: Vec<(u8, Vec<Outcome>, Vec<u8>)> =
+        case.calls.iter().map(|c| (c.method, c.outcomes.clone(), c.delays.clone())).collect();
+    rows.push((0, vec![Outcome::Status { code: 14, trailers_only: true }; MAX_EP], vec![0; MAX_EP]));
+    let rows = Arc::new(rows);
+    let trace: Arc<Mutex<Vec<Ev>>> = Arc::new(Mutex::new(Vec::new()));
+
+    let handler: Handler = {
+        let rows = rows.clone();
+        let trace = trace.clone();
+        Arc::new(move |inc: Incoming| {
+            let rows = rows.clone();
+            let trace = trace.clone();
+            Box::pin(async move {
+                let call = inc.header_str("x-call").and_then(|s| s.parse::<usize>().ok());
+                let Some(call) = call.filter(|c| *c < rows.len()) else {
+                    trace.lock().unwrap().push(Ev { call: usize::MAX, endpoint: inc.endpoint, path: inc.path.clone(), request_ok: false });
+                    return Reply::Status { code: 13, message: "harness: untagged call".into(), trailers_only: true };
+                };
+                let (method, outcomes, delays) = &rows[call];
+                yields(delays[inc.endpoint]).await;
+                let request_ok = inc.well_framed
+                    && match method {
+                        2 => inc.decode::<pgas::EstimateGasPriceRequest>().map(|r| r.tx_priority == TxPriority::Medium as i32).unwrap_or(false),
+                        _ => inc.msg.is_empty(),
+                    };
+                trace.lock().unwrap().push(Ev { call, endpoint: inc.endpoint, path: inc.path.clone(), request_ok });
+                match &outcomes[inc.endpoint] {
+                    Outcome::Ok => Reply::Ok(ok_message(*method, ident(call, inc.endpoint))),
+                    Outcome::Status { code, trailers_only } => {
+                        Reply::Status { code: *code as i32, message: err_message(call, inc.endpoint), trailers_only: *trailers_only }
+                    }
+                    Outcome::Http(h) => Reply::Http(*h),
+                    Outcome::Transport => Reply::Transport(err_message(call, inc.endpoint)),
+                }
+            })
+        })
+    };
+
+    let mut builder = GrpcClient::builder();
+    for i in 0..n {
+        builder = builder.transport(FakeEndpoint::new(i, handler.clone()));
+    }
+    let client = builder.build().expect("client with fake transports builds");
+
+    let rt = if case.callers > 1 && case.multi_thread {
+        tokio::runtime::Builder::new_multi_thread().worker_threads(2).build().unwrap()
+    } else {
+        tokio::runtime::Builder::new_current_thread().build().unwrap()
+    };
+    let mut results: Vec<Option<CallResult>> = (0..=probe).map(|_| None).collect();
+    let methods: Vec<u8> = case.calls.iter().map(|c| c.method).collect();
+    rt.block_on(async {
+        if case.callers <= 1 {
+            for (i, m) in methods.iter().enumerate() {
+                results[i] = Some(do_call(&client, *m, i).await);
+            }
+        } else {
+            let mut lists: Vec<Vec<usize>> = vec![Vec::new(); case.callers];
+            for (i, c) in case.calls.iter().enumerate() {
+                lists[pick(c.caller, case.callers)].push(i);
+            }
+            let mut handles = Vec::new();
+            for list in lists {
+                let client = client.clone();
+                let methods = methods.clone();
+                handles.push(tokio::spawn(async move {
+                    let mut out = Vec::new();
+                    for i in list {
+                        out.push((i, do_call(&client, methods[i], i).await));
+                    }
+                    out
+                }));
+            }
+            for h in handles {
+                match h.await {
+                    Ok(list) => {
+                        for (i, r) in list {
+                            results[i] = Some(r);
+                        }
+                    }
+                    Err(e) if e.is_panic() => std::panic::resume_unwind(e.into_panic()),
+                    Err(_) => {}
+                }
+            }
+        }
+        results[probe] = Some(do_call(&client, 0, probe).await);
+    });
+    drop(rt);
+    let tr = trace.lock().unwrap().clone();
+    (tr, results)
+}
+
+fn judge(case: &Case, trace: &[Ev], results: &[Option<CallResult>], obs: &mut Obs) -> Result<(), Failure> {
+    let n = case.n;
+    let probe = case.calls.len();
+    let sequential = case.callers <= 1;
+    let mut prev_winner: Option<usize> = None; // sequential mode: endpoint that answered the previous call
+    let mut prev_failed = false;
+    let mut exercised = false;
+    obs.check(trace.iter().all(|e| e.call != usize::MAX), "C44:untagged-request", || "a request reached the node without its per-call metadata".into())?;
+
+    for call in 0..=probe {
+        let (method, outcomes): (u8, Vec<Outcome>) = if call == probe {
+            (0, vec![Outcome::Status { code: 14, trailers_only: true }; MAX_EP])
+        } else {
+            (case.calls[call].method, case.calls[call].outcomes.clone())
+        };
+        let evs: Vec<&Ev> = trace.iter().filter(|e| e.call == call).collect();
+        let t: Vec<usize> = evs.iter().map(|e| e.endpoint).collect();
+        let Some(result) = results[call].as_ref() else {
+            return Err(Failure::new("C44:call-did-not-complete", format!("call {call} produced no result")));
+        };
+        let ctx = |extra: &str| format!("call {call} (n={n}, {} mode): tried endpoints {t:?}, scripted {:?}, returned {result:?}: {extra}", if sequential { "sequential" } else { "concurrent" }, &outcomes[..n]);
+
+        obs.check(!t.is_empty(), "C44:no-endpoint-tried", || ctx("no endpoint was contacted"))?;
+        if t.is_empty() {
+            continue;
+        }
+        let mut seen = [false; MAX_EP];
+        for &e in &t {
+            obs.check(!seen[e], "C44:endpoint-tried-twice", || ctx("an endpoint was contacted twice within one call"))?;
+            seen[e] = true;
+        }
+        for e in &evs {
+            obs.check(e.path == PATHS[method as usize] && e.request_ok, "C44:request-malformed", || ctx(&format!("request path/body wrong: {}", e.path)))?;
+        }
+        for &e in &t {
+            obs.label(&kind_label(&outcomes[e]));
+        }
+        // every endpoint tried before the last one must have failed with a network error
+        for &e in &t[..t.len() - 1] {
+            match classify(&outcomes[e]) {
+                Class::Network => {}
+                Class::Ok => obs.fail("C44:continued-after-success", ctx(&format!("endpoint {e} answered ok but a later endpoint was still tried")))?,
+                Class::NonNetwork => obs.fail("C44:continued-after-non-network-error", ctx(&format!("endpoint {e} returned a non-network error but a later endpoint was still tried")))?,
+            }
+        }
+        let last = *t.last().unwrap();
+        if t.len() > 1 {
+            exercised = true;
+        }
+        match classify(&outcomes[last]) {
+            Class::Ok => {
+                match result {
+                    CallResult::Ok(v) => {
+                        obs.check(*v == ident(call, last), "C44:wrong-endpoint-answer-returned", || ctx(&format!("returned value {v} is not the answer of endpoint {last}")))?;
+                    }
+                    CallResult::Err { .. } => obs.fail("C44:error-although-endpoint-succeeded", ctx(&format!("endpoint {last} answered ok but the call returned an error")))?,
+                }
+                obs.label(if t.len() == 1 { "ok-first-endpoint" } else { "ok-after-failover" });
+            }
+            Class::NonNetwork => {
+                exercised = true;
+                match result {
+                    CallResult::Ok(_) => obs.fail("C44:ok-without-ok-endpoint", ctx("call returned Ok although the last tried endpoint failed"))?,
+                    CallResult::Err { network, tonic, .. } => {
+                        obs.check(!*network, "C44:non-network-error-not-returned", || ctx("the returned error is a network error although the last endpoint failed with a non-network error"))?;
+                        if let Outcome::Status { code, .. } = &outcomes[last] {
+                            let want = (*code as i32, err_message(call, last));
+                            obs.check(tonic.as_ref() == Some(&want), "C44:non-network-error-not-returned", || ctx(&format!("expected the endpoint's status {want:?}")))?;
+                        }
+                    }
+                }
+                obs.label("err-non-network-stops");
+            }
+            Class::Network => {
+                exercised = true;
+                match result {
+                    CallResult::Ok(_) => obs.fail("C44:ok-without-ok-endpoint", ctx("call returned Ok although the last tried endpoint failed"))?,
+                    CallResult::Err { network, .. } => {
+                        // an error was returned: every configured endpoint must have been tried (each exactly once)
+                        obs.check(t.len() == n, "C44:error-before-all-endpoints-tried", || ctx(&format!("error returned after {} of {n} endpoints; all of them failed with network errors only", t.len())))?;
+                        obs.check(*network, "C44:all-failed-but-not-network-error", || ctx("all endpoints failed with network errors but the returned error is not a network error"))?;
+                    }
+                }
+                obs.label(if call == probe { "probe-full-endpoint-set" } else { "err-all-network" });
+            }
+        }
+
+        if sequential {
+            if call == 0 {
+                obs.check(t.iter().enumerate().all(|(i, e)| i == *e), "C44:initial-order-not-configured-order", || ctx("the first call must walk the endpoints in configured order"))?;
+            }
+            if let Some(p) = prev_winner {
+                obs.check(t[0] == p, "C44:winner-not-tried-first-next", || ctx(&format!("the previous call succeeded on endpoint {p}, which must be tried first")))?;
+                obs.label("next-call-starts-at-winner");
+                if p != 0 {
+                    obs.label("next-call-starts-at-nonzero-winner");
+                }
+            } else if prev_failed && call > 0 {
+                obs.label("call-after-failed-call");
+            }
+            match result {
+                CallResult::Ok(_) => {
+                    prev_winner = Some(last);
+                    prev_failed = false;
+                }
+                CallResult::Err { .. } => {
+                    prev_winner = None;
+                    prev_failed = true;
+                }
+            }
+        }
+    }
+    if sequential {
+        obs.label("sequential");
+    } else {
+        obs.label("concurrent");
+        obs.label(if case.multi_thread { "concurrent-multi-thread" } else { "concurrent-single-thread" });
+    }
+    obs.label(&format!("endpoints-{n}"));
+    obs.eval(exercised.then(|| digest_of(case)));
+    Ok(())
+}
+
+pub fn run(ctx: &mut Ctx) {
+    ctx.assume("network error = gRPC status Unavailable/Unknown/DeadlineExceeded/Aborted, a failing transport future, or an HTTP status tonic 0.13 maps to Unavailable/Unknown (429/502/503/504/500); non-network = every other gRPC status and HTTP 400/401/403/404 (tonic's documented HTTP->gRPC mapping is trusted)");
+    ctx.assume("fake endpoints are tower services plugged in through the public GrpcClientBuilder::transport; no sockets, no tonic Channel (its own reconnect/timeout layers are not exercised)");
+    ctx.assume("concurrent schedules are those tokio produces (current-thread and 2-worker multi-thread runtimes) plus generated yield delays inside the fake node; not an exhaustive interleaving search");
+    ctx.assume("position of endpoints other than the winner after a reorder, and the order used after a fully failed call, are not asserted (not stated by the property)");
+    ctx.essential(&[
+        "ok-first-endpoint",
+        "ok-after-failover",
+        "err-all-network",
+        "err-non-network-stops",
+        "next-call-starts-at-nonzero-winner",
+        "probe-full-endpoint-set",
+        "sequential",
+        "concurrent-multi-thread",
+        "concurrent-single-thread",
+        "ep-transport-error",
+        "endpoints-1",
+        "endpoints-5",
+    ]);
+    let cases = ctx.tier.pick(6000, 100000);
+    let max_calls = 20;
+    ctx.proptest(
+        "failover",
+        "1..5 fake endpoints x 1..20 calls (4 RPC methods) with a generated outcome and delay per (call, endpoint); sequential or 2..4 concurrent callers, plus a final all-endpoints-fail probe call. Per call: tried endpoints are distinct; all but the last tried failed with network errors; last ok => its answer is returned; last non-network => that error returned; last network => all n endpoints were tried and a network error is returned; sequential: first call walks the configured order, a call after a success starts at the winner. Non-trivial = a case in which at least one call had to fail over or returned an error (distinct by recipe)",
+        cases,
+        move || case_strategy(max_calls),
+        |case, obs| {
+            let (trace, results) = run_scenario(case);
+            judge(case, &trace, &results, obs)
+        },
+    );
 }
